@@ -218,9 +218,23 @@ def inv(k, a):
     return se2_inv(a) if k == "se2" else se3_inv(a)
 
 
-def ominus(k, a, b):
-    """a (-) b := b^-1 (+) a"""
+def ominus_via_inverse(k, a, b):
+    """a (-) b := b^-1 (+) a, literally"""
     return oplus(k, inv(k, b), a)
+
+
+def ominus(k, a, b):
+    """a (-) b = b^-1 (+) a, evaluated as R_b^T (t_a - t_b) (difference first: no cancellation between two large absolute positions, so the
+    reference stays accurate to eps x separation however far from the origin the poses are)."""
+    if k in ("r2", "r3"):
+        return [x - y for x, y in zip(a, b)]
+    if k == "se2":
+        c, s = cos(b[2]), sin(b[2])
+        dx, dy = a[0] - b[0], a[1] - b[1]
+        return [c * dx + s * dy, c * dy - s * dx, a[2] - b[2]]
+    qi = qconj(b[3:])
+    t = qrot(qi, [a[0] - b[0], a[1] - b[1], a[2] - b[2]])
+    return [t[0], t[1], t[2]] + qmul(qi, a[3:])
 
 
 def box(k, p, d):
